@@ -190,8 +190,16 @@ impl<T: TrustProvider> TrustAwarePeerSelector<T> {
             })
             .collect();
 
-        // Sort by score descending (higher is better)
-        scored.sort_by(|a, b| b.1.total_cmp(&a.1));
+        // Sort by score descending (higher is better). Equal scores (distances below f64
+        // resolution, ids differing only after byte 16, zero trust factor) are ordered by the
+        // full XOR distance: closer first.
+        scored.sort_by(|a, b| {
+            b.1.total_cmp(&a.1).then_with(|| {
+                let da = DhtKey::from_bytes(*a.0.id.as_bytes()).distance(key);
+                let db = DhtKey::from_bytes(*b.0.id.as_bytes()).distance(key);
+                da.cmp(&db)
+            })
+        });
 
         // Take top `count` peers
         scored
@@ -224,7 +232,8 @@ impl<T: TrustProvider> TrustAwarePeerSelector<T> {
         // Combine with trust score
         // Formula ensures even trust=0 nodes get α * distance_score
         let alpha = config.trust_weight;
-        let trust_factor = alpha + (1.0 - alpha) * trust;
+        // Providers answer in [0, 1]; an out-of-range answer must not flip the ranking
+        let trust_factor = alpha + (1.0 - alpha) * trust.clamp(0.0, 1.0);
 
         distance_score * trust_factor
     }
